@@ -106,21 +106,36 @@ def strip_lean_comments(src):
 FORBIDDEN = re.compile(r"\bsorry\b|\badmit\b|^\s*axiom\s|native_decide|bv_decide|implemented_by|\bunsafe\s|maxHeartbeats\s+0\b|\bpartial\s+def\b", re.M)
 
 
-def forbidden_tokens():
+def import_closure(roots):
+    """local (MV.*, Oracle.*) modules reachable from roots through `import` lines"""
+    seen, todo = set(), list(roots)
+    while todo:
+        m = todo.pop()
+        if m in seen:
+            continue
+        path = os.path.join(LEAN, *m.split(".")) + ".lean"
+        if not os.path.exists(path):
+            continue
+        seen.add(m)
+        for line in open(path):
+            mm = re.match(r"\s*(?:public\s+)?import\s+(\S+)", line)
+            if mm and (mm.group(1).startswith("MV.") or mm.group(1).startswith("Oracle.")):
+                todo.append(mm.group(1))
+    return sorted(seen)
+
+
+def forbidden_tokens(roots):
+    """forbidden tokens in the import closure of the property's modules and oracle"""
     hits = []
-    for root in ("MV", "Oracle"):
-        for dp, _, fns in os.walk(os.path.join(LEAN, root)):
-            for fn in fns:
-                if not fn.endswith(".lean"):
-                    continue
-                p = os.path.join(dp, fn)
-                src = strip_lean_comments(open(p).read())
-                for m in FORBIDDEN.finditer(src):
-                    tok = m.group(0).strip()
-                    if tok.startswith("partial") and root == "Oracle" and fn == "Proto.lean":
-                        continue  # the I/O loop of the oracle
-                    line = src.count("\n", 0, m.start()) + 1
-                    hits.append("%s:%d: %s" % (os.path.relpath(p, LEAN), line, tok))
+    for m in import_closure(roots):
+        p = os.path.join(LEAN, *m.split(".")) + ".lean"
+        src = strip_lean_comments(open(p).read())
+        for mt in FORBIDDEN.finditer(src):
+            tok = mt.group(0).strip()
+            if tok.startswith("partial") and m == "Oracle.Proto":
+                continue  # the I/O loop of the oracle
+            line = src.count("\n", 0, mt.start()) + 1
+            hits.append("%s:%d: %s" % (os.path.relpath(p, LEAN), line, tok))
     return hits
 
 
@@ -250,7 +265,7 @@ class Suite:
         self.model = cfg.get("model")          # oracle suite compared line by line
         self.spec = cfg.get("spec")            # oracle suite of the abstract spec (search)
         self.judge = cfg.get("judge")          # oracle suite judging `op => impl` lines
-        self.timeout = cfg.get("timeout_s", 900) * (4 if tier == "thorough" else 1)
+        self.timeout = cfg.get("timeout_s", 400) * (4 if tier == "thorough" else 1)
         self.trivial = re.compile(cfg.get("trivial_re", r"^(ok|bad-op|empty|nil|false|true|0|-|#.*|)$"))
         self.env = cfg.get("env", {})
 
@@ -464,6 +479,9 @@ def main(argv):
         elif argv[i] == "--seed": seed = int(argv[i + 1]); i += 2
         else: i += 1
     t0 = time.time()
+    import glob
+    for old in glob.glob(os.path.join(VERIF, "out", "replays", prop + "-*.json")):
+        os.remove(old)
     conf = load_conf(prop)
     outdir = os.path.join(VERIF, "out", prop); os.makedirs(outdir, exist_ok=True)
     findings = load_findings()
@@ -508,7 +526,7 @@ def main(argv):
         missing = [t for t in conf.get("required_theorems", []) if t not in thm_axioms]
         if missing:
             violation(None, "required theorems missing: %s" % missing, {"missing": missing}, False)
-        hits = forbidden_tokens()
+        hits = forbidden_tokens(conf["lean_modules"] + ["Oracle.Main" + prop])
         if hits:
             violation(None, "forbidden tokens in Lean sources: %s" % hits[:5], {"hits": hits}, False)
     # ---- 3. correspondence
